@@ -17,15 +17,32 @@ def run_api(ctx, exe, jobs, tag, nproc=8, timeout=3600):
         files.append((inp, outp))
 
     def one(io):
-        vh(exe, ["api", io[0], io[1]], timeout=timeout)
+        """runs one input file; a job with a call that never returns comes back marked HANG (harness watchdog, exit code 3) and
+        the jobs after it are run again from a new process"""
+        inp, outp = io
+        todo = [json.loads(l) for l in open(inp)]
+        got = {}
+        for rnd in range(6):
+            p = vh(exe, ["api", inp, outp], timeout=timeout, ok_codes=(0, 3))
+            with open(outp) as f:
+                for line in f:
+                    r = json.loads(line)
+                    got[r["id"]] = r["res"]
+            todo = [j for j in todo if j["id"] not in got]
+            if p.returncode == 0 or not todo:
+                break
+            with open(inp, "w") as f:
+                for j in todo:
+                    f.write(json.dumps(j, separators=(",", ":")) + "\n")
+        for j in todo:      # too many hanging jobs in one file: the rest is reported as not executed
+            if j["id"] not in got:
+                got[j["id"]] = [{"panic": "HANG: not executed, the harness process gave up after 6 hanging jobs", "hang": True}] + [{"skip": "not executed"}] * (len(j["calls"]) - 1)
+        return got
     with cf.ThreadPoolExecutor(max_workers=nproc) as ex:
-        list(ex.map(one, files))
+        parts = list(ex.map(one, files))
     res = {}
-    for inp, outp in files:
-        with open(outp) as f:
-            for line in f:
-                r = json.loads(line)
-                res[r["id"]] = r["res"]
+    for (inp, outp), got in zip(files, parts):
+        res.update(got)
         os.remove(inp)
         os.remove(outp)
     return res
